@@ -1,5 +1,5 @@
 (* C12 — LSB0 mode is a pure index mirror of MSB0 mode (statements; SeqProofs.v). *)
-From BS Require Import Prims BitsCore Search SeqProofs MirrorProofs SearchProofs SearchTop LsbSearch.
+From BS Require Import Prims BitsCore Search Mutators SeqProofs MirrorProofs SearchProofs SearchTop LsbSearch LsbMutators.
 Open Scope Z_scope.
 
 (* bit i of X in lsb0 numbering is bit i of (rev X) in msb0 numbering, for every index incl. negative and out of range *)
@@ -50,6 +50,16 @@ Proof. exact bs_rfind_lsb0_is_mirror. Qed.
 Theorem C12_lsb0_findall_is_brute_force_on_the_mirror : forall d p s e ba count, p <> [] -> count_ok count -> 0 <= s -> s <= e -> e <= zlen d ->
   findall_lsb0 d p s e count ba = Ok (take_count count (spec_matches (rev d) (rev p) s e ba)).
 Proof. intros. apply findall_lsb0_count_is_mirror; assumption. Qed.
+(* ranged mutators under lsb0: reverse(start, end) and insert(bs, pos) obey the mirror law; rol / ror keep their textual direction (like << >>),
+   so ror over the lsb0 range [start, end) is the mirror of rol on the mirrored data and vice versa *)
+Theorem C12_mirror_reverse : forall b start stop, ba_reverse true b start stop = res_map (@rev bool) (ba_reverse false (rev b) start stop).
+Proof. exact ba_reverse_lsb0. Qed.
+Theorem C12_mirror_ror_rol : forall b n start stop,
+  ba_ror true b n start stop = res_map (@rev bool) (ba_rol false (rev b) n start stop) /\
+  ba_rol true b n start stop = res_map (@rev bool) (ba_ror false (rev b) n start stop).
+Proof. intros. split; [apply ba_ror_lsb0|apply ba_rol_lsb0]. Qed.
+Theorem C12_mirror_insert : forall b bs pos, ba_insert true b bs pos = res_map (@rev bool) (ba_insert false (rev b) (rev bs) pos).
+Proof. exact ba_insert_lsb0. Qed.
 Example C12_nonvacuous : getslice_withstep_lsb0 [true;true;false;true;false;false;false] (mkslice (Some 6) (Some 1) (Some (-2))) = Ok [false;false;true].
 Proof. vm_compute. reflexivity. Qed.
 
@@ -71,3 +81,6 @@ Print Assumptions C12_mirror_findall.
 Print Assumptions C12_mirror_find.
 Print Assumptions C12_mirror_rfind.
 Print Assumptions C12_lsb0_findall_is_brute_force_on_the_mirror.
+Print Assumptions C12_mirror_reverse.
+Print Assumptions C12_mirror_ror_rol.
+Print Assumptions C12_mirror_insert.
